@@ -50,7 +50,10 @@ def rule_r3(repo):
                     for c in ast.walk(n.ast):
                         if isinstance(c, ast.Call):
                             for t in repo.resolve_call(f, c):
-                                if any(isinstance(x, (ast.Raise, ast.Assert)) for x in ast.walk(t.node)):
+                                # helpers of the reconstruction itself (kernel constructors such as Thm / Or
+                                # raise only on ill-formed input and do not check the step)
+                                if t.module.rel.startswith('smt/veriT/') and \
+                                        any(isinstance(x, (ast.Raise, ast.Assert)) for x in ast.walk(t.node)):
                                     rejecting_helper = True
                 if claimed and from_args and not rejecting_helper:
                     ok = False
